@@ -247,7 +247,7 @@ impl Monitor for C04 {
     }
     fn histories(&self, tier: Tier) -> u64 {
         // 0..=9: exhaustive small scope for total = idx; then random batches
-        10 + tier.pick(60, 200_000)
+        10 + tier.pick(600, 200_000)
     }
     fn mandatory(&self) -> Vec<&'static str> {
         vec![
